@@ -167,6 +167,37 @@ fn contract_obj(variant: &str) -> Option<Box<dyn CallableContract>> {
     })
 }
 
+/// mutable endpoints of a variant from the contract's generated ABI: name:onlyOwner:payable
+fn abi_line(variant: &str) -> String {
+    use multiversx_sc::contract_base::ContractAbiProvider;
+    let abi = match variant {
+        "base" => launchpad::AbiProvider::abi(),
+        "locked" => launchpad_locked_tokens::AbiProvider::abi(),
+        "nft" => launchpad_with_nft::AbiProvider::abi(),
+        "guarV1" => launchpad_guaranteed_tickets::AbiProvider::abi(),
+        "guarV2" => launchpad_guaranteed_tickets_v2::AbiProvider::abi(),
+        "migration" => launchpad_migration_guaranteed_tickets::AbiProvider::abi(),
+        "lockedGuar" => launchpad_locked_tokens_and_guaranteed_tickets::AbiProvider::abi(),
+        "nftGuar" => launchpad_nft_and_guaranteed_tickets::AbiProvider::abi(),
+        _ => return "X unknown variant".to_string(),
+    };
+    let mut items: Vec<String> = Vec::new();
+    for ep in abi.endpoints.iter() {
+        let readonly = !matches!(ep.mutability, multiversx_sc::abi::EndpointMutabilityAbi::Mutable);
+        if readonly {
+            continue;
+        }
+        items.push(format!(
+            "{}:{}:{}",
+            ep.name,
+            if ep.only_owner { 1 } else { 0 },
+            if ep.payable_in_tokens.is_empty() { 0 } else { 1 }
+        ));
+    }
+    items.sort();
+    format!("A {}", items.join(" "))
+}
+
 fn big() -> String {
     // 10^30: more than any generated payment, small enough to keep sums readable
     "1000000000000000000000000000000".to_string()
@@ -785,6 +816,7 @@ fn main() {
                 r.unwrap_or_else(|_| "X harness panic in dump".to_string())
             }
             "storage" => dump::raw_storage(&w),
+            "abi" => abi_line(t.s()),
             "snap" => {
                 let name = t.s().to_string();
                 let locks = LOCK_CALLS.with(|l| l.borrow().clone());
